@@ -3,7 +3,6 @@ package html
 import (
 	"fmt"
 	"io"
-	"unicode"
 
 	"github.com/elliotchance/gedcom/v39/html/core"
 )
@@ -19,9 +18,8 @@ func NewSurnameLink(surname string) *SurnameLink {
 }
 
 func (c *SurnameLink) WriteHTMLTo(w io.Writer) (int64, error) {
-	firstLetter := rune(c.surname[0])
-	lowerFirstLetter := unicode.ToLower(firstLetter)
-	destination := fmt.Sprintf("%s#%s", PageIndividuals(lowerFirstLetter), c.surname)
+	letter := getIndexLetterForSurname(c.surname)
+	destination := fmt.Sprintf("%s#%s", PageIndividuals(letter), c.surname)
 
 	return core.NewLink(core.NewText(c.surname), destination).WriteHTMLTo(w)
 }
